@@ -60,6 +60,62 @@ impl Check for CanonCheck {
         let mut run = gen_sess_run("C09", seed, tier, true);
         let mut f = Rng::stream(seed, "candidates");
         run.set("cand_seed", (f.next() >> 1) as i64);
+        // (own stream) parents over a symmetric leaf, judged by brute-force subgroup closure instead
+        // of M_cc: nodes with up to 24^3 group-compatible variants
+        let mut sp = Rng::stream(seed, "sym-parent");
+        if sp.chance(1, 40) {
+            let k = if sp.chance(1, 2) { 4 } else { 3 };
+            let perm = |sp: &mut Rng| -> Vec<i64> {
+                let mut v: Vec<i64> = (0..k as i64).collect();
+                sp.shuffle(&mut v);
+                v
+            };
+            let mut ops: Vec<Op> = Vec::new();
+            let ngen = sp.range(1, 3);
+            let mut gens: Vec<Vec<i64>> = Vec::new();
+            for _ in 0..ngen {
+                let g = if k == 4 && sp.chance(1, 3) { vec![1, 2, 3, 0] } else if sp.chance(1, 3) { let mut v: Vec<i64> = (0..k as i64).collect(); v.swap(0, 1); v } else { perm(&mut sp) };
+                gens.push(g.clone());
+                let mut o = Op::new("gen");
+                for x in g {
+                    o = o.i(x);
+                }
+                ops.push(o);
+            }
+            let arity = sp.range(2, 3);
+            let mut first: Vec<Vec<i64>> = Vec::new();
+            for q in 0..4 {
+                let mut o = Op::new(if q == 0 { "parent" } else { "candidate" });
+                for c in 0..arity {
+                    let mut p = perm(&mut sp);
+                    if q > 0 && sp.chance(1, 2) {
+                        // the first parent's child composed with a product of generators: a present one
+                        let mut h: Vec<i64> = (0..k as i64).collect();
+                        for _ in 0..sp.range(0, 3) {
+                            let g = sp.pick(&gens).clone();
+                            h = (0..k).map(|i| h[g[i] as usize]).collect();
+                        }
+                        p = (0..k).map(|i| first[c][h[i] as usize]).collect();
+                    }
+                    if q == 0 {
+                        first.push(p.clone());
+                    }
+                    for x in p {
+                        o = o.i(x);
+                    }
+                }
+                ops.push(o);
+            }
+            if sp.chance(1, 2) {
+                // the parent exists before the symmetries are known
+                let pi = ops.iter().position(|o| o.name == "parent").unwrap();
+                let o = ops.remove(pi);
+                ops.insert(0, o);
+            }
+            run.ops = ops;
+            run.set("sym_parent", k as i64);
+            run.set("sym_arity", arity as i64);
+        }
         run
     }
     fn rule(&self) -> &'static str {
@@ -76,6 +132,9 @@ impl Check for CanonCheck {
     }
 
     fn exec(&self, run: &Run) -> Outcome {
+        if run.get("sym_parent") > 0 {
+            return exec_sym_parent(run);
+        }
         // a third of the runs carry the simulator's analysis (min size / depth / height): worklist
         // entries then come in two kinds (analysis-only and full) and data changes re-queue parents
         if run.get("analysis") != 0 {
@@ -309,4 +368,174 @@ impl CanonCheck {
         out.nontrivial = any_change && pc > 0 && ac > 0;
         out
         }
+}
+
+
+/// C09 for nodes over a symmetric leaf. Leaf `a = p_k(x_0..x_{k-1})`; for every generator g the equation
+/// `a = p_k(x_{g(0)}, ..)` is asserted, so the invocations equal to the child `p_k(x_{pi(0)}, ..)` are exactly
+/// `p_k(x_{pi(h(0))}, ..)` for h in the subgroup H generated by the g's (brute-force closure). A candidate
+/// parent is already represented iff some inserted parent agrees with it child by child up to H.
+fn exec_sym_parent(run: &Run) -> Outcome {
+    let mut out = Outcome::default();
+    seam::apply(&run.knobs());
+    let k = run.get("sym_parent").clamp(2, 4) as usize;
+    let arity = run.get("sym_arity").clamp(2, 3) as usize;
+    let mut s: Sess<LS, ()> = Sess::new(EGraph::new(()), run.get("naming") as u32);
+    let leaf = |p: &[i64]| Tm::leaf(&format!("p{k}"), p.iter().map(|x| x.rem_euclid(k as i64) as S).collect());
+    let ident: Vec<i64> = (0..k as i64).collect();
+    let is_perm = |p: &[i64]| {
+        let mut v: Vec<i64> = p.iter().map(|x| x.rem_euclid(k as i64)).collect();
+        v.sort();
+        v == ident
+    };
+    let gens: Vec<Vec<i64>> = run.ops.iter().filter(|o| o.name == "gen" && o.i.len() == k && is_perm(&o.i)).map(|o| o.i.clone()).collect();
+    // closure under composition (h.g)(i) = h(g(i))
+    let mut h_set: Vec<Vec<i64>> = vec![ident.clone()];
+    loop {
+        let mut grew = false;
+        for h in h_set.clone() {
+            for g in &gens {
+                let c: Vec<i64> = (0..k).map(|i| h[g[i] as usize]).collect();
+                if !h_set.contains(&c) {
+                    h_set.push(c);
+                    grew = true;
+                }
+            }
+        }
+        if !grew {
+            break;
+        }
+    }
+    let parent = |ps: &[Vec<i64>]| -> Tm {
+        let kids: Vec<(Vec<S>, Tm)> = ps.iter().map(|p| (vec![], leaf(p))).collect();
+        Tm::node(if arity == 3 { "t" } else { "b" }, vec![], kids)
+    };
+    let split = |o: &Op| -> Option<Vec<Vec<i64>>> {
+        if o.i.len() != arity * k {
+            return None;
+        }
+        let v: Vec<Vec<i64>> = o.i.chunks(k).map(|c| c.to_vec()).collect();
+        if v.iter().all(|p| is_perm(p)) {
+            Some(v)
+        } else {
+            None
+        }
+    };
+    // same child up to H: sigma = pi . h for some h in H
+    let same_child = |pi: &[i64], sigma: &[i64]| h_set.iter().any(|h| (0..k).all(|i| pi[h[i] as usize] == sigma[i]));
+    let mut inserted: Vec<(Vec<Vec<i64>>, AppliedId)> = Vec::new();
+    let v = |clause: &str, detail: String, at: usize| viol(clause, detail, at);
+    for (at, op) in run.ops.iter().enumerate() {
+        match op.name.as_str() {
+            "gen" => {
+                if op.i.len() != k || !is_perm(&op.i) {
+                    continue;
+                }
+                let (a, b) = (leaf(&ident), leaf(&op.i));
+                if catch_op(|| s.union_terms(&a, &b, false, false)).is_err() {
+                    out.discarded = Some("panic".into());
+                    return out;
+                }
+                out.ops_executed += 1;
+            }
+            "parent" | "candidate" => {
+                let Some(ps) = split(op) else { continue };
+                let t = parent(&ps);
+                // represented = equal to an inserted parent up to a renaming rho of the free slots
+                // (rho . tau_i = sigma_i . h); "the same invocation" = rho can be the identity
+                let all_rho: Vec<Vec<i64>> = {
+                    fn rec(k: usize, cur: &mut Vec<i64>, out: &mut Vec<Vec<i64>>) {
+                        if cur.len() == k {
+                            out.push(cur.clone());
+                            return;
+                        }
+                        for x in 0..k as i64 {
+                            if !cur.contains(&x) {
+                                cur.push(x);
+                                rec(k, cur, out);
+                                cur.pop();
+                            }
+                        }
+                    }
+                    let mut o = Vec::new();
+                    rec(k, &mut Vec::new(), &mut o);
+                    o
+                };
+                let renamed_same = |qs: &Vec<Vec<i64>>| all_rho.iter().any(|rho| qs.iter().zip(ps.iter()).all(|(q, p)| { let rq: Vec<i64> = (0..k).map(|i| rho[q[i] as usize]).collect(); same_child(&rq, p) }));
+                let same_inv: Option<usize> = inserted.iter().position(|(qs, _)| qs.iter().zip(ps.iter()).all(|(q, p)| same_child(q, p)));
+                let expected: Option<usize> = same_inv.or_else(|| inserted.iter().position(|(qs, _)| renamed_same(qs)));
+                let re = to_re::<LS>(&t, &mut s.nm);
+                let r = catch_op(|| {
+                    let fp0 = fingerprint(&s.eg);
+                    let l = lookup_rec_expr(&re, &s.eg);
+                    let fp1 = fingerprint(&s.eg);
+                    let before = s.eg.progress().number_of_classes;
+                    let h = s.eg.add_expr(re.clone());
+                    let after = s.eg.progress().number_of_classes;
+                    (l, h, before, after, fp0 == fp1)
+                });
+                let (l, h, before, after, ro) = match r {
+                    Ok(x) => x,
+                    Err(_) => {
+                        out.discarded = Some("panic".into());
+                        return out;
+                    }
+                };
+                out.ops_executed += 1;
+                if !ro {
+                    out.violations.push(v("lookup_read_only", format!("lookup_rec_expr({t}) changed the fingerprint"), at));
+                    return out;
+                }
+                match expected {
+                    Some(j) => {
+                        out.bump("present_candidates");
+                        if l.is_none() {
+                            out.violations.push(v("present_not_found", format!("{t} is represented (generators {gens:?}: it equals the inserted {} child by child) but lookup_rec_expr returned None", parent(&inserted[j].0)), at));
+                            return out;
+                        }
+                        if after != before {
+                            out.violations.push(v("known_term_creates_class", format!("inserting {t}, which is represented (generators {gens:?}), allocated {} classes", after - before), at));
+                            return out;
+                        }
+                        let hj = inserted[j].1.clone();
+                        let ok = catch_op(|| (same_inv.is_none() || s.eg.eq(&h, &hj)) && s.eg.eq(l.as_ref().unwrap(), &h) && s.eg.find_applied_id(&h).id == s.eg.find_applied_id(&hj).id).unwrap_or(false);
+                        if !ok {
+                            out.violations.push(v("result_not_equal_existing", format!("add_expr({t}) = {h:?} / lookup {l:?} is not equal to the existing invocation {hj:?}"), at));
+                            return out;
+                        }
+                    }
+                    None => {
+                        out.bump("absent_candidates");
+                        if l.is_some() {
+                            out.violations.push(v("absent_found", format!("{t} is not represented (generators {gens:?}, inserted {:?}) but lookup_rec_expr succeeded", inserted.iter().map(|x| parent(&x.0).to_string()).collect::<Vec<_>>()), at));
+                            return out;
+                        }
+                        if after == before {
+                            out.violations.push(v("absent_creates_nothing", format!("inserting {t}, which is not represented, allocated no class"), at));
+                            return out;
+                        }
+                    }
+                }
+                inserted.push((ps, h));
+            }
+            _ => {}
+        }
+        out.states.push(state_hash(&s.eg));
+    }
+    // symmetries asserted after the parents: every pair of inserted parents that agrees child by child
+    // up to H must be equal now
+    for a in 0..inserted.len() {
+        for b in a + 1..inserted.len() {
+            let exp = inserted[a].0.iter().zip(inserted[b].0.iter()).all(|(q, p)| same_child(q, p));
+            let got = catch_op(|| s.eg.eq(&inserted[a].1, &inserted[b].1)).unwrap_or(false);
+            if exp != got {
+                out.violations.push(v(if exp { "result_not_equal_existing" } else { "absent_found" }, format!("{} and {} (generators {gens:?}): equal per subgroup closure = {exp}, eq = {got}", parent(&inserted[a].0), parent(&inserted[b].0)), run.ops.len()));
+                return out;
+            }
+        }
+    }
+    out.bump("sym_parent_runs");
+    out.log_hash = s.log_hash ^ crate::rng::hash_str(&format!("{:?}", inserted.iter().map(|x| format!("{:?}", x.1)).collect::<Vec<_>>()));
+    out.nontrivial = out.discarded.is_none() && !gens.is_empty() && inserted.len() >= 2;
+    out
 }
